@@ -369,6 +369,35 @@ def run(harness_files, pattern, annotations=(), use_map_shim=False, map_shim_fil
     return kr
 
 
+def _kill_largest_in_group(pgid):
+    """SIGKILL the process with the largest resident set among the solver processes (cbmc, kissat, goto-*) of process group `pgid`."""
+    import signal
+    best = (0, None)
+    for pid in os.listdir("/proc"):
+        if not pid.isdigit():
+            continue
+        try:
+            st = open(f"/proc/{pid}/stat").read()
+            comm = st[st.index("(") + 1:st.rindex(")")]
+            fields = st[st.rindex(")") + 2:].split()
+            if int(fields[2]) != pgid or not comm.startswith(("cbmc", "kissat", "goto-", "cadical")):
+                continue
+            rss = int(fields[21])
+            if rss > best[0]:
+                best = (rss, int(pid))
+        except Exception:
+            continue
+    if best[1]:
+        try:
+            os.kill(best[1], signal.SIGKILL)
+            MEMORY_KILLS.append(best[1])
+        except Exception:
+            pass
+
+
+MEMORY_KILLS = []
+
+
 def _run_limited(cmd, cwd, timeout_s, mem_gb):
     """Run in its own process group with a wall-clock limit and a per-process address-space limit (prlimit);
     on timeout the whole group (cargo, kani-driver, cbmc, kissat ...) is killed.  Returns combined output or None."""
@@ -377,11 +406,26 @@ def _run_limited(cmd, cwd, timeout_s, mem_gb):
     full = ["prlimit", f"--as={int(mem_gb * 1024**3)}"] + cmd
     with tempfile.TemporaryFile(mode="w+") as out:
         p = subprocess.Popen(full, cwd=cwd, env=ENV, stdout=out, stderr=subprocess.STDOUT, start_new_session=True)
-        try:
-            p.wait(timeout=timeout_s)
-            timed_out = False
-        except subprocess.TimeoutExpired:
-            timed_out = True
+        # wait with a memory watchdog: a changed tree can make single CBMC runs grow without bound (measured: two at 27 GB each
+        # after `insert` was re-routed through the entry API); before the machine runs out of memory the largest solver process of
+        # THIS run is killed -- its harness is then reported as undecided (tool limit), never as a violation
+        deadline = time.time() + timeout_s
+        timed_out = False
+        while True:
+            try:
+                p.wait(timeout=2)
+                break
+            except subprocess.TimeoutExpired:
+                pass
+            if time.time() > deadline:
+                timed_out = True
+                break
+            try:
+                avail_kb = next(int(l.split()[1]) for l in open("/proc/meminfo") if l.startswith("MemAvailable"))
+                if avail_kb < 6 * 1024 * 1024:
+                    _kill_largest_in_group(p.pid)
+            except Exception:
+                pass
         if timed_out or True:
             # make sure nothing of the group survives (orphaned cbmc would keep eating CPU)
             try:
